@@ -37,7 +37,9 @@ def oracle(x):
 def same(a, b):
     if a is None or b is None:
         return a is None and b is None
-    return math.isclose(float(a), float(b), rel_tol=1e-12, abs_tol=1e-12)
+    if float(a) == 0.0 or float(b) == 0.0:
+        return float(a) == float(b)
+    return math.isclose(float(a), float(b), rel_tol=1e-9, abs_tol=0.0)      # relative only: the rule is scale-invariant
 
 
 def main():
@@ -61,6 +63,10 @@ def main():
         k = int(rng.integers(1, 3))
         steps[rng.choice(n, size=k, replace=False)] = base * (1 + rng.choice([0.01, 0.02, 0.03, 0.031, 0.032, 0.04, -0.02, -0.04]))
         cases.append(np.concatenate([[0.0], np.cumsum(steps)]))
+    # the documented tolerance is RELATIVE: the same shapes at very small and very large magnitudes (ns time steps, large depths)
+    for scale in (1e-9, 1e-6, 1e-3, 1e4, 1e9):
+        for steps in ([1, 2, 3], [1, 1, 2], [3, 2, 1], [1, 1.01, 1], [1, 1.04, 1, 1], [-1, -2, -3], [1, -1, 1], [2, 2, 2, 2], [1, 1.031, 1, 1, 1], [1, 1.032, 1, 1, 1]):
+            cases.append(np.concatenate([[0.0], np.cumsum(np.array(steps, dtype=np.float64) * scale)]))
     viol, seen = [], set()
     for x in cases:
         key = (str(x.dtype), x.tobytes())
@@ -77,7 +83,7 @@ def main():
             if len(viol) >= 5:
                 break
     print(json.dumps({'evaluations': len(cases), 'distinct': len(seen), 'violations': viol,
-                      'bound': 'all arrays of length 2..5 over a 7-point float grid, length 2..4 over a 6-point grid for float32/int16/int32, '
+                      'bound': 'scale-invariance probes (10 step shapes x 5 magnitudes 1e-9..1e9); all arrays of length 2..5 over a 7-point float grid, length 2..4 over a 6-point grid for float32/int16/int32, '
                                + ('5000' if thorough else '600') + ' seeded nearly-uniform arrays of length 6..30; signed dtypes only'}))
 
 
